@@ -361,6 +361,25 @@ def run_bb(ctx, p):
     rng = np.random.default_rng(p["seed"])
     pts, t = C.dom_bbnoh(rng, s, p["kw"], geom, 16)
     ctx.call(s, pts, t)
+    # the same object solved again after it has been evaluated - a parameter sweep through the EOS's own setter, or a new
+    # starting guess - and evaluated again: the fields must satisfy the EOS as it is then (the monitor asks the live
+    # s.eos), whatever was computed and kept for the first state
+    mode = p["seed"] % 3
+    name, c = p["kw"]["eos"], p["kw"]["consts"]
+    if mode == 0:
+        return
+    if mode == 1 and name in ("noble_abel", "carnahan_starling"):
+        ctx.quiet(s.eos.set_new_co_volume, c["b"] * uni(rng, 0.3, 0.8))
+        how = "co-volume changed through the EOS setter"
+    elif mode == 1 and name == "stiffened":
+        ctx.quiet(s.eos.set_new_sound_speed, c["c_s"] * uni(rng, 1.1, 1.5))
+        how = "sound speed changed through the EOS setter"
+    else:
+        s.set_new_solver_initial_guess(list(type(s).initial_guess))
+        how = "class-default starting guess"
+    ctx.count("bbnoh_second_solve:" + how)
+    ctx.quiet(s.solve_jump_conditions)
+    ctx.call(s, pts, t)
 
 
 def reach(tot, tier):
